@@ -58,7 +58,7 @@ fn backtick_spans(msg: &str) -> Vec<String> {
 
 fn bad_arg_for(lang: Lang, r: &mut Rng) -> Option<String> {
     Some(match lang {
-        Lang::CountU32 | Lang::CountU64 | Lang::PlainU32 | Lang::Size | Lang::TimeMin | Lang::TimeDay => r.pick(&["x", "@5", "q9", "k", "#", "abc", "_1", "x'", "q\"", "x'y", "`x", "{}", "x%", "\u{e9}5", "x\\"]).to_string(),
+        Lang::CountU32 | Lang::CountU64 | Lang::PlainU32 | Lang::Size | Lang::TimeMin | Lang::TimeDay => r.pick(&["x", "@5", "q9", "k", "#", "abc", "_1", "x'", "q\"", "x'y", "`x", "{}", "x%", "\u{e9}5", "x\\", "xxxxxxxxxxxxxxxxxxxxxxxxxxxxxxxxxxxxxxxx", "@123456789012345678901234567890", "q_a_very_long_offending_word_of_more_than_forty_characters"]).to_string(),
         Lang::Types => r.pick(&["q", "x", "z", "Q", "q'", "x\"z"]).to_string(),
         Lang::Perm => r.pick(&["q", "x+r", "9", "zz", "@"]).to_string(),
         Lang::Format | Lang::WordFormat => r.pick(&["%q", "%!", "%j", "%", "%Q"]).to_string(),
@@ -249,7 +249,7 @@ pub fn run(ctx: &Ctx, rep: &mut Report) {
             1 => ["bogus", "foo", "x", "print", "name", "123", "a.b"][r.usize(7)].to_string(),
             2 => format!("{}x", VOCAB[r.usize(VOCAB.len())].word),
             3 => format!("--{}", ["name", "print", "help"][r.usize(3)]),
-            4 => format!("-{}{}", ["q", "z", "y", "j"][r.usize(4)], r.below(100)),
+            4 => format!("-{}{}{}", ["q", "z", "y", "j"][r.usize(4)], r.below(100), "w".repeat(r.usize(40))),
             _ => ["+5", "@", "%p", "~", "{}", "=", "caf\u{e9}"][r.usize(7)].to_string(),
         };
         let before = r.usize(4);
